@@ -694,6 +694,10 @@ impl FinishedSession {
         #[cfg(feature = "verif-hooks")]
         crate::verif::yield_point(4);
 
+        if nomt.store.is_poisoned() {
+            anyhow::bail!("Store is poisoned due to prior error");
+        }
+
         {
             let mut shared = nomt.shared.lock();
             if shared.root != self.prev_root {
@@ -743,6 +747,10 @@ impl FinishedSession {
             .flatten();
         if write_guard.is_none() {
             return Ok(Some(self));
+        }
+
+        if nomt.store.is_poisoned() {
+            anyhow::bail!("Store is poisoned due to prior error");
         }
 
         if let Some(rollback_delta) = self.rollback_delta {
@@ -819,6 +827,10 @@ impl Overlay {
         #[cfg(feature = "verif-hooks")]
         crate::verif::yield_point(6);
 
+        if nomt.store.is_poisoned() {
+            anyhow::bail!("Store is poisoned due to prior error");
+        }
+
         let marker = self.mark_committed();
 
         {
@@ -879,6 +891,10 @@ impl Overlay {
         let write_guard = nomt.access_lock.try_write();
         if write_guard.is_none() {
             return Ok(Some(self));
+        }
+
+        if nomt.store.is_poisoned() {
+            anyhow::bail!("Store is poisoned due to prior error");
         }
 
         let marker = self.mark_committed();
